@@ -574,4 +574,34 @@ pub fn send_to_gui(message: &str) {
                     zobrist_hasher.get_val_for_piece(Piece::pawn(White), Point(mov.0 - 1, mov.1));""", """                new_board.board[mov.0 + 1][mov.1] = Square::Empty;
                 new_board.zobrist_key ^=
                     zobrist_hasher.get_val_for_piece(Piece::pawn(White), Point(mov.0 + 1, mov.1));""", "R2.7", "black en-passant capture removes the square in front of the target"),
+
+    # ---------------- C15 tables / layout / CLI
+    ("C15", "fen-letter-swap", BD, """            'n' => Some(Piece {
+                color: Black,
+                kind: Knight,
+            }),
+            'b' => Some(Piece {
+                color: Black,
+                kind: Bishop,
+            }),""", """            'n' => Some(Piece {
+                color: Black,
+                kind: Bishop,
+            }),
+            'b' => Some(Piece {
+                color: Black,
+                kind: Knight,
+            }),""", "R15.3", "black knights and bishops swapped on load (killed by tests? control)"),
+    ("C15", "castle-letter-case", BD, """            black_queen_side_castle: castling_privileges.find('q') != None,""", """            black_queen_side_castle: castling_privileges.find('Q') != None,""", "R15.3", "black queen-side right read from the white letter"),
+    ("C15", "main-unwraps-fen", "src/main.rs", """    let board = match board::BoardState::from_fen(fen) {
+        Ok(b) => b,
+        Err(err) => {
+            println!("{}", err);
+            return;
+        }
+    };""", """    let board = board::BoardState::from_fen(fen).unwrap();""", "R15.5", "CLI panics on a bad FEN"),
+    ("C15", "row-completeness-dropped", BD, """            if col != BOARD_END {
+                return Err("Could not parse fen string: Complete row was not specified");
+            }
+""", "", "R15.4", "short FEN rows accepted, leaving sentinel squares inside the board"),
+    ("C15", "ep-field-ignored", BD, """            pawn_double_move: en_passant_pos,""", """            pawn_double_move: None,""", "R15.3", "en-passant square of the FEN dropped (key and state disagree too)"),
 ]
